@@ -65,3 +65,11 @@ add("C14",
     "real AdapterRegistry).",
     "Guards: __conform__ callable with one argument (a TypeError of the call machinery itself is documented as 'no __conform__'); custom __adapt__ only via interfacemethod.",
     "Lean 4 proof (declarative precedence incl. call log, twin equality) + exhaustive finite correspondence + statement oracle", "6/C14")
+add("C17",
+    "Theorems: C17_incompat_iff (_incompat finds nothing iff EVERY call shape admitted by the interface signature binds to the implementation — all arities, "
+    "unbounded surplus positionals, extra keywords), verifyElement_none_iff + C17_verify (success iff declared-or-tentative and every own or inherited member "
+    "acceptable, with the class-verification exemptions), C17_errors (single Invalid iff exactly one failure, else MultipleInvalid listing exactly the individual "
+    "failures in order). The complete 64x64 signature grid x {function, bound method, class} and random multi-member interfaces are executed on both twins every "
+    "run, compared with the model (results, failure lists, messages) and judged by inspect.signature.bind on every admitted shape.",
+    "Guards: positional / defaulted / *args / **kwargs parameters (the statement's list); required keyword-only parameters of an implementation are outside it.",
+    "Lean 4 proof (iff over all call shapes, result/error-list characterisation) + exhaustive grid correspondence + inspect.bind oracle", "6/C17")
